@@ -892,7 +892,7 @@ fn gen_op(r: &mut Prng, w: &W, ops_so_far: usize, plan: &mut std::collections::V
         10..=13 if !mh.pending.is_empty() => GOp::Jump { epochs: 151 + r.range(0, 40), tick: r.chance(50) },
         14..=19 => GOp::Fund { m, fil: r.range(1, 500) },
         20..=31 => GOp::Award { m, penalty: if r.chance(60) { 0 } else { r.below(1 << 58) as i64 }, pscale: if r.chance(70) { 1 } else { 200 }, gas: r.below(1 << 50) as i64, wins: if r.chance(95) { r.range(1, 3) } else { 0 } },
-        32..=43 => GOp::Withdraw { m, stranger: r.chance(8), fil: if r.chance(75) { r.range(0, 40) } else { 1_000_000 } },
+        32..=43 => GOp::Withdraw { m, stranger: r.chance(8), fil: if r.chance(25) { 0 } else if r.chance(70) { r.range(1, 40) } else { 1_000_000 } },
         44..=51 => GOp::Jump { epochs: *r.pick(&[5i64, 30, 120, 600, 1500, DAY, DAY + 77, 2 * DAY, 5 * DAY, 31 * DAY, 43 * DAY, 100 * DAY, 215 * DAY]), tick: r.chance(85) },
         52..=63 => GOp::Deadlines { m, n: *r.pick(&[1usize, 1, 2, 3, 6, 12, 24, 48, 49]), post: r.chance(75) },
         64..=67 => {
